@@ -12,6 +12,8 @@ class Run:
     __slots__ = ("argv", "rc", "out", "err", "timed_out", "signal", "stdin", "env", "kind")
 
     def __init__(self, argv, rc, out, err, timed_out=False, stdin=None, env=None, kind="release"):
+        # arguments that are raw bytes (not valid UTF-8) are kept readable: surrogate-escaped strings go back to the same bytes on exec
+        argv = [a.decode("utf-8", "surrogateescape") if isinstance(a, bytes) else a for a in argv]
         self.argv, self.rc, self.out, self.err, self.timed_out = argv, rc, out, err, timed_out
         self.signal = -rc if rc is not None and rc < 0 else None
         self.stdin, self.env, self.kind = stdin, env, kind
@@ -44,7 +46,7 @@ def sfs(args, stdin=None, kind="release", env=None, timeout=30, exe=None, cwd=No
         # integer overflow traps, debug assertions and the standard library's precondition checks of unsafe functions in the sfs
         # crates. Its output must be what the release build prints - the monitors compare it exactly as they compare any other run.
         import zlib
-        h = zlib.crc32(("\x00".join(str(a) for a in args if not str(a).startswith("/")) + "|%d" % len(stdin or b"")).encode())
+        h = zlib.crc32(("\x00".join(str(a) for a in args if not str(a).startswith("/")) + "|%d" % len(stdin or b"")).encode("utf-8", "surrogateescape"))
         if h % 4 == 0:
             kind = "ovf"
             MIX_CHECKED["runs"] += 1
@@ -52,7 +54,7 @@ def sfs(args, stdin=None, kind="release", env=None, timeout=30, exe=None, cwd=No
     e = dict(BASE_ENV)
     if env:
         e.update(env)
-    argv = [exe] + [str(a) for a in args]
+    argv = [exe] + [a if isinstance(a, bytes) else str(a) for a in args]
     if stdin_tty:
         import pty
         master, slave = pty.openpty()
@@ -83,7 +85,7 @@ def sfs_stdout_to(args, stdin, where, kind="release", timeout=30):
     EPIPE), '/dev/full' (ENOSPC), 'read-only-fd' (a descriptor opened for reading: EBADF). Only stderr and the status come back."""
     exe = build.cli(kind)
     e = dict(BASE_ENV)
-    argv = [exe] + [str(a) for a in args]
+    argv = [exe] + [a if isinstance(a, bytes) else str(a) for a in args]
     close = []
     if where == "closed-pipe":
         rd, wr = os.pipe()
@@ -133,7 +135,7 @@ def sfs_dribble(args, data, first=1, pause=0.004, kind="release", env=None, time
     e = dict(BASE_ENV)
     if env:
         e.update(env)
-    argv = [exe] + [str(a) for a in args]
+    argv = [exe] + [a if isinstance(a, bytes) else str(a) for a in args]
     p = subprocess.Popen(argv, stdin=subprocess.PIPE, stdout=subprocess.PIPE, stderr=subprocess.PIPE, env=e)
     try:
         try:
